@@ -222,6 +222,13 @@ class PreprocessorData:
                 f"(this usually happens after a 'reserve' or 'segment' that isn't 2*w-aligned).",
             )
         ops_to_pad = (-self.curr_address // op_size) % ops_alignment
+        if self.curr_address + ops_to_pad * op_size > (1 << self.memory_width):
+            # refuse it here: materializing that many padding-ops only to fail later can take forever
+            macro_resolve_error(
+                self.curr_tree,
+                f"'pad {hex(ops_alignment)}' needs {hex(ops_to_pad)} padding ops here, "
+                f"which is more than the {self.memory_width}-bits memory can hold.",
+            )
         self.curr_address += ops_to_pad * op_size
         self.result_ops.append(Padding(ops_to_pad))
 
